@@ -83,6 +83,8 @@ pub enum ObjBehaviour {
     Abort(u32),
     /// The reply names a different object
     WrongIndex,
+    /// The reply names the right object but the next sub-index
+    WrongSubIndex,
     /// An emergency message is sent instead of the reply
     Emergency { code: u16, register: u8 },
 }
@@ -104,6 +106,9 @@ pub enum UploadPolicy {
     PreferNormal,
     /// Segmented with these segment sizes (cycled; clipped to 7..=mailbox-9 except the last)
     Segmented(Vec<u16>),
+    /// Segmented as ETG.1000.6 5.6.2.4 describes it (and SOEM implements it): the initiate
+    /// response already carries this many bytes (clipped to what fits), segments carry the rest
+    SegmentedInitData(u16, Vec<u16>),
 }
 
 #[derive(Serialize, Deserialize, Clone, Debug, PartialEq, Eq, Hash)]
@@ -169,6 +174,8 @@ pub struct DeviceStats {
     pub mailbox_requests: Vec<Vec<u8>>,
     pub downloads: Vec<(u16, u8, Vec<u8>)>,
     pub uploads: Vec<(u16, u8)>,
+    /// How each served upload was answered: 0 expedited, 1 normal, 2 segmented (+ complete flag 0x10)
+    pub upload_kinds: Vec<u8>,
     pub mailbox_counters: Vec<u8>,
     pub station_addr_writes: Vec<u16>,
     pub dc_sync_writes: u32,
